@@ -73,3 +73,26 @@ package schema
 //@ immutable Field.PrimaryKey
 //@   writers schema.(*Schema).ParseField schema.ParseWithSpecialTableName
 //@   tags C10
+
+//@ # ---------- C11: which parents take part in a preload / association lookup ----------
+//@ # A parent is keyed (gets an entry in the identity map and a row in the IN list) exactly when at least one
+//@ # part of its referenced key is non-zero; "for all key values" includes composite keys with zero parts.
+//@ ghost sawNonZero pendingParent
+//@ event calldyn Field.ValueOf
+//@   in schema.GetIdentityFieldValuesMap
+//@   do sawNonZero = ite(result1, sawNonZero, 1)
+//@ event call utils.ToStringKey
+//@   in schema.GetIdentityFieldValuesMap
+//@   requires keyed-parent-has-a-non-zero-key-part: sawNonZero == 1 [C11]
+//@   do pendingParent = 0
+//@ func GetIdentityFieldValuesMap
+//@   tags C11
+//@   loop 1 entry-do sawNonZero = 0
+//@   loop 1 invariant not-zero-tracks-key-parts: notZero == (sawNonZero == 1)
+//@   loop 1 exit-do pendingParent = ite(sawNonZero == 1, 1, 0)
+//@   loop 2 entry-do pendingParent = 0
+//@   loop 2 invariant earlier-parents-keyed: pendingParent == 0
+//@   loop 3 entry-do sawNonZero = 0
+//@   loop 3 invariant not-zero-tracks-key-parts: notZero == (sawNonZero == 1)
+//@   loop 3 exit-do pendingParent = ite(sawNonZero == 1, 1, 0)
+//@   ensures no-parent-with-a-non-zero-key-part-left-out: old(pendingParent) == 0 ==> pendingParent == 0
